@@ -68,6 +68,7 @@ type scen struct {
 	addFrom   byte   // who starts that thread: 'm' the main thread before it calls Run, 'r' runner 0 when it starts
 	lateAdd   bool   // a thread calls Add once the run has started
 	parent    bool   // a thread cancels the parent context
+	parentEnd byte   // how else the parent context ends: 'u' a thread cancels it with a cause (WithCancelCause(custom error)), 'd' its deadline (5ms of model time) expires
 	run2      bool   // a thread calls Run concurrently with the main thread's Run
 	pb        bool   // explored with preemption bounding (only part of the name)
 }
@@ -98,6 +99,12 @@ func (s scen) name() string {
 	}
 	if s.parent {
 		n += " parentCancel"
+	}
+	switch s.parentEnd {
+	case 'u':
+		n += " parentCancelCause"
+	case 'd':
+		n += " parentDeadline"
 	}
 	if s.run2 {
 		n += " Run||Run"
@@ -157,6 +164,67 @@ type callRec struct {
 	err      error
 }
 
+// deadlineParent is a parent context that ends by a deadline, with the real
+// runtime's semantics for derived contexts: a context derived from it (also by
+// un-instrumented or instrumented code through context.WithCancel*) reports
+// Err() == context.DeadlineExceeded once it has expired. (A child of
+// mc.CtxWithDeadline reports context.Canceled with cause DeadlineExceeded,
+// because the shim builds it on WithCancelCause.) Its Done channel is the one
+// of an mc context, so the model twin, and the twins of derived contexts, are
+// the shim's; the real derived contexts are cancelled through the std
+// afterFuncer hook (Value hides the inner cancelCtx, so std does not attach the
+// child to it directly).
+type deadlineParent struct {
+	inner   context.Context
+	expired bool
+	fns     map[int]func()
+	next    int
+}
+
+func (d *deadlineParent) Deadline() (time.Time, bool) { return time.Time{}, false }
+func (d *deadlineParent) Done() <-chan struct{}       { return d.inner.Done() }
+func (d *deadlineParent) Value(any) any               { return nil }
+func (d *deadlineParent) Err() error {
+	if d.expired {
+		return context.DeadlineExceeded
+	}
+	return d.inner.Err()
+}
+
+// AfterFunc is the hook context.WithCancel* uses for parents it does not know.
+func (d *deadlineParent) AfterFunc(f func()) func() bool {
+	if d.expired {
+		f()
+		return func() bool { return false }
+	}
+	id := d.next
+	d.next++
+	d.fns[id] = f
+	return func() bool {
+		_, ok := d.fns[id]
+		delete(d.fns, id)
+		return ok
+	}
+}
+
+// expire ends the context: the model twins close (one scheduling point, inside
+// cancelInner), then — without another scheduling point — the real derived
+// contexts are cancelled with DeadlineExceeded.
+func (d *deadlineParent) expire(cancelInner func()) {
+	cancelInner()
+	d.expired = true
+	ids := make([]int, 0, len(d.fns))
+	for id := range d.fns {
+		ids = append(ids, id)
+	}
+	sort.Ints(ids)
+	for _, id := range ids {
+		f := d.fns[id]
+		delete(d.fns, id)
+		f()
+	}
+}
+
 type closerImpl func() error
 
 func (c closerImpl) Close() error { return c() }
@@ -208,7 +276,21 @@ func mkExec(s scen) *mc.Exec {
 	}
 	body := func() {
 		bg := context.Background()
-		parent, cancelParent := mc.CtxWithCancel(bg)
+		var parent context.Context
+		var cancelParent func()
+		switch s.parentEnd {
+		case 'u':
+			p, cc := mc.CtxWithCancelCause(bg)
+			cause := newErr("parentCause")
+			parent, cancelParent = p, func() { cc(cause) }
+		case 'd':
+			inner, cancelInner := mc.CtxWithCancel(bg)
+			dp := &deadlineParent{inner: inner, fns: map[int]func(){}}
+			parent, cancelParent = dp, func() { dp.expire(cancelInner) }
+			names[context.DeadlineExceeded] = "context.DeadlineExceeded"
+		default:
+			parent, cancelParent = mc.CtxWithCancel(bg)
+		}
 		startedCh = mc.NewChan[struct{}]()
 		pStarted = mc.NewChan[struct{}]()
 		release = mc.NewChan[struct{}]()
@@ -237,6 +319,10 @@ func mkExec(s scen) *mc.Exec {
 				case 'w':
 					r.err = fmt.Errorf("runner %d gave up: %w", r.idx, context.Canceled)
 					names[r.err] = fmt.Sprintf("wrappedCanceledAtOnce%d", r.idx)
+				case 's': // works for 1ms of model time, then nil
+					mc.TimeSleep(time.Millisecond)
+				case 'S': // works for 10ms of model time (past the parent's deadline), then nil
+					mc.TimeSleep(10 * time.Millisecond)
 				default:
 					mc.Twin(ctx.Done()).Recv()
 					r.sawDone = tick()
@@ -245,6 +331,8 @@ func mkExec(s scen) *mc.Exec {
 						r.err = r.e
 					case 'C':
 						r.err = ctx.Err()
+					case 'U':
+						r.err = context.Cause(ctx)
 					case 'W':
 						r.err = fmt.Errorf("runner %d stopped: %w", r.idx, ctx.Err())
 						names[r.err] = fmt.Sprintf("wrappedCanceled%d", r.idx)
@@ -390,8 +478,15 @@ func mkExec(s scen) *mc.Exec {
 		if s.close == 'b' {
 			doClose("Close-before-Run")
 		}
-		if s.parent {
+		if s.parent || s.parentEnd == 'u' {
 			spawn("parent", func() {
+				cancelParent()
+				parentAt = tick()
+			})
+		}
+		if s.parentEnd == 'd' {
+			spawn("parent", func() { // the deadline timer
+				mc.TimeSleep(5 * time.Millisecond)
 				cancelParent()
 				parentAt = tick()
 			})
@@ -846,7 +941,7 @@ func mkTypesExec() *mc.Exec {
 var closerKindsRe = regexp.MustCompile(`closers="[^"]*[cwdt][^"]*"`)
 
 func hasTrigger(s scen) bool {
-	return len(s.runners) == 0 || strings.ContainsAny(s.runners, "necw") || s.parent ||
+	return len(s.runners) == 0 || strings.ContainsAny(s.runners, "necwsS") || s.parent || s.parentEnd != 0 ||
 		(s.closerMgr && (s.close == '1' || s.close == '2' || s.close == 'b'))
 }
 
@@ -870,7 +965,7 @@ func scenarios() []hx.Scenario {
 			// many goroutines: 3 deviations must complete for the smaller
 			// configurations, 2 for the larger; deeper while the budget lasts
 			w := len(s.runners) + len(s.closers)
-			for _, b := range []bool{s.parent, s.close == '1' || s.close == '2', s.close == '2', s.addCloser != '-', s.lateAdd, s.run2, strings.Contains(s.closers, "p"), s.grace != '-'} {
+			for _, b := range []bool{s.parent || s.parentEnd != 0, s.close == '1' || s.close == '2', s.close == '2', s.addCloser != '-', s.lateAdd, s.run2, strings.Contains(s.closers, "p"), s.grace != '-'} {
 				if b {
 					w++
 				}
@@ -1044,6 +1139,29 @@ func scenarios() []hx.Scenario {
 			}
 		}
 	}
+	// G8 how the parent context ends: plain cancel, cancel with a cause, deadline
+	// (timeline mode; the deadline expires at 5ms, 's' runners return at 1ms, 'S'
+	// at 10ms); runners that wait return nil / ctx.Err() / context.Cause(ctx).
+	// The manager adds nothing of its own to the joined error.
+	for _, pe := range []byte{'d', 'u', 'c'} {
+		for _, t := range []string{"N", "C", "U", "NC", "NU", "CU", "sN", "SN", "sC", "SU", "eC", "EU", "S", "NCU"} {
+			base := scen{runners: t, timeline: true}
+			if pe == 'c' {
+				base.parent = true
+			} else {
+				base.parentEnd = pe
+			}
+			add(base, rm, false, 2, 2, len(t) > 2 || (pe != 'd' && !in(t, "U", "CU")))
+			for _, cl := range []string{"", "e"} {
+				for _, cm := range []byte{'-', '1', 'a'} {
+					sc := base
+					sc.closerMgr, sc.closers, sc.grace, sc.close = true, cl, '-', cm
+					quick := pe == 'd' && in(t, "N", "C", "sN", "SN") && (cl == "" || t == "N") && cm != 'a'
+					add(sc, rcm, true, 3, 4, !quick)
+				}
+			}
+		}
+	}
 	// G7 closer results: every closer error is reported, whatever it is (the
 	// Canceled filter applies to runners only); position = closer type
 	// (0 io.Closer, 1 func(context.Context) error, 2 func() error)
@@ -1105,7 +1223,7 @@ func scenarios() []hx.Scenario {
 	}
 	// the boundary families (closer error kinds, grace <= 0 / 1ns) come first
 	prio := func(n string) bool {
-		return strings.Contains(n, "grace=0") || strings.Contains(n, "grace=m") || strings.Contains(n, "grace=1") || closerKindsRe.MatchString(n)
+		return strings.Contains(n, "parentDeadline") || strings.Contains(n, "parentCancelCause") || strings.Contains(n, "grace=0") || strings.Contains(n, "grace=m") || strings.Contains(n, "grace=1") || closerKindsRe.MatchString(n)
 	}
 	sort.SliceStable(out, func(i, j int) bool { return prio(out[i].Name) && !prio(out[j].Name) })
 	out = append([]hx.Scenario{{
